@@ -156,6 +156,12 @@ theorem step_tracks (o : Op) (s : List String × List (String × Int)) (h : trac
     refine ⟨by rw [hk.ups, hk.wm]; exact h, ?_⟩
     intro r hr
     rw [hk.told r hr, ← h]
+  | barrier =>
+    have hk := (flush_ok o).1
+    simp only [Op.step, Op.barrier, epochOf]
+    refine ⟨by rw [hk.ups, hk.wm]; exact h, ?_⟩
+    intro r hr
+    rw [hk.told r hr, ← h]
 
 theorem epochOf_append (s : List String × List (String × Int)) (a b : List OpEv) :
     epochOf s (a ++ b) = epochOf (epochOf s a) b := by
